@@ -562,6 +562,18 @@ impl Actor {
             .map(|query| query.verif_state())
     }
 
+    /// Verification hook: final state of the lookup for `target` if it is the one that finished last.
+    #[allow(clippy::type_complexity)]
+    pub fn verif_lookup_done(
+        &self,
+        target: &Id,
+    ) -> Option<(Vec<Node>, Vec<Node>, Vec<SocketAddrV4>, Vec<u32>)> {
+        match &self.core.verif_last_done {
+            Some((id, state)) if id == target => Some(state.clone()),
+            _ => None,
+        }
+    }
+
     /// Verification hook: the embedded server's stores.
     pub fn verif_server_dump(&self) -> crate::core::server::VerifServerDump {
         self.core.server.verif_dump()
